@@ -472,7 +472,8 @@ pub fn main(args: &[String]) -> i32 {
             }
             13 | 14 => {
                 ev = call_event("patch", k);
-                let set = if long_set || rng.random_range(0..4) == 0 { [10, 55, 100, 999][rng.random_range(0..4)] } else { rng.random_range(0..9) };
+                // (three digits: a two-digit number would make the document 8 bytes long, which the store also reads as a counter)
+                let set = if long_set || rng.random_range(0..4) == 0 { [100, 500, 999, 123][rng.random_range(0..4)] } else { rng.random_range(0..9) };
                 let (pt, patch) = if rng.random_bool(0.4) {
                     let t = rng.random_range(0..9);
                     (t as i64, format!("[{{\"op\":\"test\",\"path\":\"/n\",\"value\":{t}}},{{\"op\":\"replace\",\"path\":\"/n\",\"value\":{set}}}]"))
